@@ -21,7 +21,12 @@ REPO = os.path.realpath(os.environ.get('USIM_REPO', '/repo'))
 
 class Family:
     def __init__(self, name, fn, quick=None, thorough=None, reach=(), bounds='', doc='',
-                 encoded_hint=()):
+                 nonrepro='error'):
+        # nonrepro: what a counterexample that does not reproduce concretely means.  'error':
+        # the encoding is wrong (exit 2).  'inconclusive': the family uses a symbolic stub (e.g.
+        # a symbolic class hierarchy) that the concrete replay replaces by the real thing; a
+        # non-reproducing counterexample is an artefact of the stub and is only counted.
+        self.nonrepro = nonrepro
         self.name = name
         self.fn = fn
         self.tiers = {'quick': quick, 'thorough': thorough}
